@@ -462,6 +462,7 @@ func (eng *Engine) verifyFunc(fn *ssa.Function, con *Contract, mode string) *VC 
 		}
 	}
 	env := fr.newEnv(&fr.entry)
+	env.noteDistinct = true
 	for _, c := range con.Requires {
 		g, err := env.evalBool(c.E)
 		if err != nil {
